@@ -41,6 +41,14 @@ CHECKS = {
   text="Normal form of the marker predicate, key typestate of the rotation loop (old pair before decrypt, new pair before re-encrypt), dominance of the seen-anchor skip, changed-flag guard and backup ordering of the file effects, coverage and escaping of the discovery recursion, non-zero state in both EYAML handlers. Structural necessary conditions for every document; the external cipher is out of reach.",
   note="Trusted base: external eyaml binary and its command protocol; ruamel dump.",
   technique="typestate / must-precede rules and normal-form matching over the AST"),
+ "C03": dict(
+  text="Guard-dominance analysis of every store of the replacement node in the whole-document reference-replacement routine (identity plus position-or-anchor; sibling branches agree), sole-writer analysis of the set_value call graph, anchor-preservation of every constructor in make_new_node, conversion of ValueError at the call site. Necessary conditions of the frame property on every path; which scalars share an object is an input fact and is declined.",
+  note="Trusted base: ruamel container API; object identity is the routine's notion of 'the matched node and its aliases'.",
+  technique="guard-dominance (identity / position / anchor) analysis of store sites + effect-based sole-writer analysis"),
+ "C04": dict(
+  text="Gather-then-delete ordering, reversed traversal, confinement of every mutation of _delete_nodes to the current item's (parent, parentref) under a presence/bounds guard (merge-key branch included), root refusal without prior mutation, guarded partial operations. Duplicate matches of one node are declined (run-time).",
+  note="Trusted base: coordinates satisfy C02; ruamel merge entries are (index, node).",
+  technique="mutation-site confinement + guard-dominance + loop-order rules over the AST"),
 }
 
 NOT_BUILT = "check not built yet (framework under construction; will be claimed at clause level per DESIGN.md)"
